@@ -1,0 +1,2 @@
+//! Verification hooks (compiled only with `--cfg quinn_rs_quinn_verif`).
+#![allow(missing_docs, dead_code, unused_imports, unreachable_pub, clippy::all)]
